@@ -460,6 +460,17 @@ def paths_case(ctx, g):
     pr = hl.small_problem(rng, err_scale=float(10 ** rng.uniform(0.3, 1.1)))
     N = int(rng.integers(24, 48))
     lib, phys, internal = hl.library(rng, pr, N, internal_units=bool(g["index"] % 3 != 2))
+    narrow = (not internal) and g["index"] % 2 == 0
+    if narrow:
+        # a library whose nonlinear columns are float32 AND stored in other units than the kernel's (prior.sample(dtype=
+        # float32) of a prior declared in years): the stored sample is the float32 number in its own unit
+        import thejoker as tj
+        lib32 = tj.JokerSamples(poly_trend=pr.p, n_offsets=pr.q)
+        for nm in lib.par_names:
+            col = lib[nm]
+            lib32[nm] = col.astype(np.float32) if nm in ("P", "e", "omega", "M0", "s") else col
+        lib = lib32
+        ctx.count("paths:float32 library in foreign units")
     entry = ("rejection", "iterative")[g["index"] % 2]
     seed = hl.seed_of(rng)
     base = hl.gen_spec(rng, N, entry=entry, source="object", in_memory=False)
@@ -501,6 +512,22 @@ def paths_case(ctx, g):
     with hl.Scratch("c05") as sc:
         path = sc.write_library(lib)
         ref = Ref(pr, lib, path, [pr.data])
+        # the same stored sample is the same number in memory and through the cache: converted rows and values, bit for bit
+        rel0 = "marginal ln-likelihood of a stored sample: in memory = through the HDF5 cache (same number)"
+        fm, ff = ref.fresh(0, "mem"), ref.fresh(0, "file")
+        ctx.evaluated(rel0, ("paths", g["index"]) if not internal else None)
+        if not same_bits(fm, ff):
+            k = int(np.nonzero(bits(np.asarray(fm)) != bits(np.asarray(ff)))[0][0])
+            ctx.violation(rel0, g, dict(N=N, internal_units=internal, float32_columns=narrow, row=k,
+                                        stored={nm: (float(np.asarray(lib[nm].value)[k]), str(lib[nm].unit)) for nm in ("P", "e", "omega", "M0", "s")},
+                                        problem=dict(p=pr.p, q=pr.q, K=pr.desc["K"]["kind"])),
+                          dict(ll_in_memory=float(fm[k]), row_in_memory=ref.rows(0, "mem")[k]),
+                          dict(ll_cache=float(ff[k]), row_cache=ref.rows(0, "file")[k]),
+                          "the marginal ln-likelihood of a prior sample is the same number whether it is evaluated in memory or "
+                          f"through an HDF5 cache: row {k} gives {float(fm[k])!r} in memory and {float(ff[k])!r} through the cache "
+                          f"({int(np.sum(bits(np.asarray(fm)) != bits(np.asarray(ff))))} of {N} rows differ)",
+                          tags=dict(relation="mem-vs-cache", float32=narrow))
+            return
         for v in variants:
             parent = rec.RecGen(seed)
             j = pr.joker(rng=parent, pool=rec.RecPool(size=int(rng.integers(1, 4)), wrap_children=False))
@@ -775,6 +802,7 @@ def post(ctx):
     ctx.require("iterative cases needing >= 2 rounds", c["paths:iterative-multi-round"], 2)
     ctx.require("same-name cache file re-written in other units between calls", c["rewrite:unit-change"], 4)
     ctx.require("sampler with log-probabilities on a re-written cache file", c["rewrite:sampler-after-rewrite"], 6)
+    ctx.require("float32 libraries in foreign units (in memory vs cache)", c["paths:float32 library in foreign units"], 1)
     ctx.require("in-memory path compared under n_prior_samples / max_prior_samples / randomize_prior_order",
                 c["paths:in-memory variant with n_prior_samples / max_prior_samples / randomize_prior_order"], 3)
     ctx.require("multi-process marginal calls", c["mpool:marginal-calls"], 6)
